@@ -40,6 +40,18 @@ theorem cache_afterRead_c2_pin (c_shouldDrainBuffers_delayable : Bool) :
 theorem cache_afterRead_a0_pin (c_readBuffer_Add_got : BitVec 8) (c_skipReadBuffer : Bool) :
     Gen.CacheMaint.cache_afterRead_a0 c_readBuffer_Add_got c_skipReadBuffer = (c_skipReadBuffer || (c_readBuffer_Add_got != (1#8))) := by pin_tac Gen.CacheMaint.cache_afterRead_a0
 
+theorem cache_shouldDrainBuffers_s0_pin (drainStatus : BitVec 32) :
+    Gen.CacheMaint.cache_shouldDrainBuffers_s0 drainStatus = (drainStatus == (0#32)) := by pin_tac Gen.CacheMaint.cache_shouldDrainBuffers_s0
+
+theorem cache_shouldDrainBuffers_s1_pin (drainStatus : BitVec 32) :
+    Gen.CacheMaint.cache_shouldDrainBuffers_s1 drainStatus = (drainStatus == (1#32)) := by pin_tac Gen.CacheMaint.cache_shouldDrainBuffers_s1
+
+theorem cache_shouldDrainBuffers_s2_pin (drainStatus : BitVec 32) :
+    Gen.CacheMaint.cache_shouldDrainBuffers_s2 drainStatus = (drainStatus == (2#32)) := by pin_tac Gen.CacheMaint.cache_shouldDrainBuffers_s2
+
+theorem cache_shouldDrainBuffers_s3_pin (drainStatus : BitVec 32) :
+    Gen.CacheMaint.cache_shouldDrainBuffers_s3 drainStatus = (drainStatus == (3#32)) := by pin_tac Gen.CacheMaint.cache_shouldDrainBuffers_s3
+
 theorem cache_shouldDrainBuffers_a0_pin (c_drainStatus_Load : BitVec 32) :
     Gen.CacheMaint.cache_shouldDrainBuffers_a0 c_drainStatus_Load = c_drainStatus_Load := by pin_tac Gen.CacheMaint.cache_shouldDrainBuffers_a0
 
@@ -69,6 +81,18 @@ theorem cache_afterWriteTask_u0_pin (i : BitVec 64) :
 
 theorem cache_scheduleAfterWrite_c0_pin (c_drainStatus_CompareAndSwap_processingToIdle_processingToRequired : Bool) :
     Gen.CacheMaint.cache_scheduleAfterWrite_c0 c_drainStatus_CompareAndSwap_processingToIdle_processingToRequired = c_drainStatus_CompareAndSwap_processingToIdle_processingToRequired := by pin_tac Gen.CacheMaint.cache_scheduleAfterWrite_c0
+
+theorem cache_scheduleAfterWrite_s0_pin (drainStatus : BitVec 32) :
+    Gen.CacheMaint.cache_scheduleAfterWrite_s0 drainStatus = (drainStatus == (0#32)) := by pin_tac Gen.CacheMaint.cache_scheduleAfterWrite_s0
+
+theorem cache_scheduleAfterWrite_s1_pin (drainStatus : BitVec 32) :
+    Gen.CacheMaint.cache_scheduleAfterWrite_s1 drainStatus = (drainStatus == (1#32)) := by pin_tac Gen.CacheMaint.cache_scheduleAfterWrite_s1
+
+theorem cache_scheduleAfterWrite_s2_pin (drainStatus : BitVec 32) :
+    Gen.CacheMaint.cache_scheduleAfterWrite_s2 drainStatus = (drainStatus == (2#32)) := by pin_tac Gen.CacheMaint.cache_scheduleAfterWrite_s2
+
+theorem cache_scheduleAfterWrite_s3_pin (drainStatus : BitVec 32) :
+    Gen.CacheMaint.cache_scheduleAfterWrite_s3 drainStatus = (drainStatus == (3#32)) := by pin_tac Gen.CacheMaint.cache_scheduleAfterWrite_s3
 
 theorem cache_scheduleAfterWrite_a0_pin (c_drainStatus_Load : BitVec 32) :
     Gen.CacheMaint.cache_scheduleAfterWrite_a0 c_drainStatus_Load = c_drainStatus_Load := by pin_tac Gen.CacheMaint.cache_scheduleAfterWrite_a0
@@ -171,6 +195,10 @@ theorem siteParams_pin : Gen.CacheMaint.siteParams = [("init_a0", ["xruntime_Par
   ("cache_afterRead_c1", ["calcExpiresAt"]),
   ("cache_afterRead_c2", ["c_shouldDrainBuffers_delayable"]),
   ("cache_afterRead_a0", ["c_readBuffer_Add_got", "c_skipReadBuffer"]),
+  ("cache_shouldDrainBuffers_s0", ["drainStatus"]),
+  ("cache_shouldDrainBuffers_s1", ["drainStatus"]),
+  ("cache_shouldDrainBuffers_s2", ["drainStatus"]),
+  ("cache_shouldDrainBuffers_s3", ["drainStatus"]),
   ("cache_shouldDrainBuffers_a0", ["c_drainStatus_Load"]),
   ("cache_shouldDrainBuffers_r0", ["delayable"]),
   ("cache_shouldDrainBuffers_r1", []),
@@ -181,6 +209,10 @@ theorem siteParams_pin : Gen.CacheMaint.siteParams = [("init_a0", ["xruntime_Par
   ("cache_afterWriteTask_a0", []),
   ("cache_afterWriteTask_u0", ["i"]),
   ("cache_scheduleAfterWrite_c0", ["c_drainStatus_CompareAndSwap_processingToIdle_processingToRequired"]),
+  ("cache_scheduleAfterWrite_s0", ["drainStatus"]),
+  ("cache_scheduleAfterWrite_s1", ["drainStatus"]),
+  ("cache_scheduleAfterWrite_s2", ["drainStatus"]),
+  ("cache_scheduleAfterWrite_s3", ["drainStatus"]),
   ("cache_scheduleAfterWrite_a0", ["c_drainStatus_Load"]),
   ("cache_scheduleDrainBuffers_c0", ["c_drainStatus_Load"]),
   ("cache_scheduleDrainBuffers_c1", ["c_evictionMutex_TryLock"]),
@@ -213,24 +245,24 @@ theorem siteParams_pin : Gen.CacheMaint.siteParams = [("init_a0", ["xruntime_Par
   ("cache_StopAllGoroutines_a0", []),
   ("cache_StopAllGoroutines_r0", ["stopped"])] := by rfl
 
-theorem shape_pin : Gen.CacheMaint.shape = [("init", [0, 0, 4, 0, 0, 0]),
-  ("cache_afterRead", [3, 0, 1, 0, 0, 0]),
-  ("cache_CleanUp", [0, 0, 0, 0, 0, 0]),
-  ("cache_shouldDrainBuffers", [0, 0, 1, 3, 0, 0]),
-  ("cache_skipReadBuffer", [0, 0, 0, 1, 0, 0]),
-  ("cache_afterWriteTask", [2, 1, 1, 0, 0, 0]),
-  ("cache_scheduleAfterWrite", [1, 0, 1, 0, 0, 0]),
-  ("cache_scheduleDrainBuffers", [4, 0, 1, 0, 0, 0]),
-  ("cache_drainBuffers", [2, 0, 0, 0, 0, 0]),
-  ("cache_performCleanUp", [0, 0, 0, 0, 0, 0]),
-  ("cache_rescheduleCleanUpIfIncomplete", [2, 0, 0, 0, 0, 0]),
-  ("cache_maintenance", [1, 0, 0, 0, 0, 0]),
-  ("cache_drainReadBuffer", [1, 0, 0, 0, 0, 0]),
-  ("cache_drainWriteBuffer", [3, 1, 2, 0, 0, 0]),
-  ("cache_periodicCleanUp", [0, 0, 1, 0, 0, 0]),
-  ("cache_SetMaximum", [1, 0, 0, 0, 0, 0]),
-  ("cache_GetMaximum", [2, 0, 1, 2, 0, 0]),
-  ("cache_WeightedSize", [2, 0, 1, 2, 0, 0]),
-  ("cache_StopAllGoroutines", [1, 0, 1, 1, 0, 0])] := by rfl
+theorem shape_pin : Gen.CacheMaint.shape = [("init", [0, 0, 4, 0, 0, 0, 0]),
+  ("cache_afterRead", [3, 0, 1, 0, 0, 0, 0]),
+  ("cache_CleanUp", [0, 0, 0, 0, 0, 0, 0]),
+  ("cache_shouldDrainBuffers", [0, 0, 1, 3, 0, 0, 4]),
+  ("cache_skipReadBuffer", [0, 0, 0, 1, 0, 0, 0]),
+  ("cache_afterWriteTask", [2, 1, 1, 0, 0, 0, 0]),
+  ("cache_scheduleAfterWrite", [1, 0, 1, 0, 0, 0, 4]),
+  ("cache_scheduleDrainBuffers", [4, 0, 1, 0, 0, 0, 0]),
+  ("cache_drainBuffers", [2, 0, 0, 0, 0, 0, 0]),
+  ("cache_performCleanUp", [0, 0, 0, 0, 0, 0, 0]),
+  ("cache_rescheduleCleanUpIfIncomplete", [2, 0, 0, 0, 0, 0, 0]),
+  ("cache_maintenance", [1, 0, 0, 0, 0, 0, 0]),
+  ("cache_drainReadBuffer", [1, 0, 0, 0, 0, 0, 0]),
+  ("cache_drainWriteBuffer", [3, 1, 2, 0, 0, 0, 0]),
+  ("cache_periodicCleanUp", [0, 0, 1, 0, 0, 0, 0]),
+  ("cache_SetMaximum", [1, 0, 0, 0, 0, 0, 0]),
+  ("cache_GetMaximum", [2, 0, 1, 2, 0, 0, 0]),
+  ("cache_WeightedSize", [2, 0, 1, 2, 0, 0, 0]),
+  ("cache_StopAllGoroutines", [1, 0, 1, 1, 0, 0, 0])] := by rfl
 
 end OtterVerif.Pin.CacheMaint
